@@ -29,7 +29,6 @@ from Cryptodome.Signature import DSS, pkcs1_15
 import ndn.encoding as enc
 from mc.ndnenv import owned_env
 from ndn.security import KeychainSqlite3, TpmFile
-from ndn.security.tpm import tpm_file as tpm_file_mod
 from ndn.app_support import security_v2 as sv2
 
 from mc.core import Acc
@@ -145,6 +144,11 @@ class FaultTpm(TpmFile):
         return super().get_signer(key_name, key_locator_name)
 
 
+def key_file_name(key_name: bytes) -> str:
+    """on-disk name of a private key in the file key store (the ndn-cxx compatible layout: SHA-256 of the key name)"""
+    return hashlib.sha256(key_name).hexdigest() + '.privkey'
+
+
 def nb(name) -> bytes:
     return bytes(enc.Name.to_bytes(name))
 
@@ -155,13 +159,26 @@ class World:
         self.pib = os.path.join(self.dir, 'pib.db')
         self.tpmdir = os.path.join(self.dir, 'ndnsec-key-file')
         self.steps = Steps()
-        self.old = (None, tpm_file_mod.RSA, tpm_file_mod.ECC)
+        # key generation and file removal are owned at the level of the standard / Cryptodome functions the key store ends up
+        # calling, whatever way it imports them
         self.env = owned_env(clock=Clock(), seed=15)
         self.env.__enter__()
-        self.old_os = tpm_file_mod.os
-        tpm_file_mod.os = OsProxy(self.steps)
-        tpm_file_mod.RSA = KeyPool(RSA, ['rsa2048_0', 'rsa2048_1', 'rsa2048_2', 'rsa2048_3'])
-        tpm_file_mod.ECC = KeyPool(ECC, ['ec256_0', 'ec256_1', 'ec256_2', 'ec256_3', 'ec256_4', 'ec256_5'])
+        rsa_pool = KeyPool(RSA, ['rsa2048_0', 'rsa2048_1', 'rsa2048_2', 'rsa2048_3'])
+        ecc_pool = KeyPool(ECC, ['ec256_0', 'ec256_1', 'ec256_2', 'ec256_3', 'ec256_4', 'ec256_5'])
+        self.old = (RSA.generate, ECC.generate, os.remove, os.unlink)
+        RSA.generate, ECC.generate = rsa_pool.generate, ecc_pool.generate
+        real_remove, real_unlink, steps, base = os.remove, os.unlink, self.steps, self.dir
+
+        def remove(path, *a, **k):
+            if str(os.fspath(path)).startswith(base):
+                steps.hit('os:remove', PermissionError(13, 'injected: permission denied'))
+            return real_remove(path, *a, **k)
+
+        def unlink(path, *a, **k):
+            if str(os.fspath(path)).startswith(base):
+                steps.hit('os:remove', PermissionError(13, 'injected: permission denied'))
+            return real_unlink(path, *a, **k)
+        os.remove, os.unlink = remove, unlink
         self.rnd = owned_random('c15')
         self.rnd.__enter__()
         self.now = fixed_now()
@@ -198,9 +215,8 @@ class World:
         finally:
             self.now.__exit__(None, None, None)
             self.rnd.__exit__(None, None, None)
-            _, tpm_file_mod.RSA, tpm_file_mod.ECC = self.old
+            RSA.generate, ECC.generate, os.remove, os.unlink = self.old
             self.env.__exit__(None, None, None)
-            tpm_file_mod.os = self.old_os
             shutil.rmtree(self.dir, ignore_errors=True)
 
     # -- independent view of the persistent state ----------------------------------------------------------
@@ -226,7 +242,7 @@ class World:
             kind = 'rsa' if len(r[3]) > 200 else 'ec'
             ck.append((r[0], r[1], owner, kind, r[4]))
         cc_ = tuple((r[0], r[1], r[4], self.cert_tag(bytes(r[2]))) for r in certs)
-        keyfile = {TpmFile._to_file_name(bytes(r[2])) for r in keys}
+        keyfile = {key_file_name(bytes(r[2])) for r in keys}
         nfiles = (len([f for f in files if f in keyfile]), len([f for f in files if f not in keyfile]))
         cache = list(getattr(self.kc, '_signer_cache', {}))
         return (cid, tuple(ck), cc_, nfiles, len(cache))
@@ -322,7 +338,7 @@ class World:
         if any(c[1] not in keyrows for c in certs):
             bad('orphans|cert-without-key', 'a certificate row refers to a deleted key')
         for kname in self.deleted_keys:
-            if TpmFile._to_file_name(kname) in files and not any(bytes(k[2]) == kname for k in keys):
+            if key_file_name(kname) in files and not any(bytes(k[2]) == kname for k in keys):
                 bad('orphans|private-key-file', 'the private key of a deleted key is still in the key directory')
         # (1) views behave as consistent mappings scoped to their owner
         kc = self.kc
